@@ -1,5 +1,5 @@
 import PsiProofs.Helper.C06_Rounding
-import PsiProofs.Helper.C06_NoPause
+import PsiProofs.Helper.C06_Deque
 import Mathlib.Data.Nat.Pairing
 /-!
 # C06 — end to end, every presented trial is recovered sample-exactly
@@ -166,6 +166,17 @@ example : ∃ e : Epoch Nat,
 /-! ## 3. composition with the concrete queue model -/
 
 open Psi.E2E Psi.Queue
+
+/-- **The link seconds ↔ samples, kept explicit.**  The start sample `reqOf` gives a request
+(`s = K0 + k − P`) is the integer the extractor's own expression `round((t0 − prestim)·fs)` computes
+from the `t0` the queue publishes for a trial notified at queue sample `k`, in the standard model of
+binary64 arithmetic: `seconds_samples_roundtrip_binary64` with `T·fs = K0`, `p·fs = P`. -/
+theorem reqOf_start_roundtrip {fl : ℝ → ℝ} (hfl : IsFl ((2 : ℝ) ^ (-53 : ℤ)) fl) (T fs p : ℝ) (c : Cfg)
+    (i : Info) (k : ℕ) (hk : i.k = (k : ℤ)) (hfs : 0 < fs) (hT : T * fs = c.K0) (hp : p * fs = c.P)
+    (hsmall : c.K0 + k + c.P ≤ 2 ^ 49) :
+    round (extractorArg fl T fs p k) = (reqOf c i).s := by
+  rw [seconds_samples_roundtrip_binary64 hfl T fs p k c.K0 c.P hfs hT hp hsmall]
+  simp only [reqOf, hk]
 
 /-- the dictionary key `(t0, key)` is an injective function of the start sample and the stimulus -/
 def EncInj (c : Cfg) : Prop := ∀ a b a' b', c.enc a b = c.enc a' b' → a = a' ∧ b = b'
@@ -358,6 +369,24 @@ theorem e2e_composed_nopause (c : Cfg) (evs : List Ev) (q0 : QState) (J : JState
   simp only [hlv, hwl] at h4
   exact ⟨np.norem, e, h1, h2, h3, h4⟩
 
+/-- **The code's own schedule is admissible.**  After any history in which every acquisition call
+drained the notification FIFO (what `extract_epochs` does with its two deques), the next draining
+call — of any size within what has been played — is neither a `lateRequest` nor a `lateRemoval`,
+provided the look-back buffer covers the pre-stimulus time (`P ≤ B`) and no pre-stimulus window
+starts before the acquisition (`P ≤ K0 + k`): notifications are issued at generation time, hence
+before the corresponding samples are acquired (C05 `visible_of_recent`). -/
+theorem deque_schedule_admissible (c : Cfg) (evs : List Ev) (q0 : QState) (J : JState)
+    (hstart : Start q0) (hrun : jrun c evs (JState.init c q0) = .ok J) (henc : EncInj c)
+    (hreuse : NoReuse J.q.added) (hside : SideOK c J.q.added)
+    (hdr : drains c evs (JState.init c q0) = true) (hPB : c.P ≤ c.B)
+    (hpre : ∀ i ∈ J.q.added, (c.P : Int) ≤ (c.K0 : Int) + i.k)
+    (n : Nat) (complete : Bool) (hn : J.acq + n ≤ J.tl.length) :
+    ∃ J', jstep c J (.acq n J.pend.length complete) = .ok J' := by
+  have hk := keysOK_of henc hreuse
+  have inv := JInv_run c evs (JInv_init c q0 hstart) hrun (fun _ => hside) hk
+  have d := DInv_run c evs (JInv_init c q0 hstart) (by intro i hi; simp [JState.init] at hi) hdr hrun hside hk
+  exact deque_step_ok c inv d hPB (fun i hi => hpre i (inv.n.addsPend i hi)) n _ complete hn (Nat.le_refl _)
+
 /-! ### Non-vacuity: a concrete joint history (FIFO queue, one 3-sample stimulus × 3, delay 2;
 acquisition starts 2 samples early, 1 pre-stimulus sample, epochs of 5, look-back 4):
 generate 8, acquire 6, pause at queue sample 6 (cancels the trial at 5, keeps the one at 0),
@@ -417,6 +446,19 @@ example : (deliveries exC.B exJ.eops (reqOf exC ⟨1, 0, 5, 3, 3, 2⟩).key).fla
   e2e_composed_cancelled_partial exC exEvs exQ exJ exQ_start exRun exC_inj
     (by unfold NoReuse; decide +kernel) (by unfold SideOK; decide +kernel) ⟨1, 0, 5, 3, 3, 2⟩
     (by decide +kernel) (by decide +kernel)
+
+/-- the history above drains the deques in both calls; a further call of 0 samples is admissible -/
+example : ∃ J', jstep exC exJ (.acq 0 exJ.pend.length true) = .ok J' :=
+  deque_schedule_admissible exC exEvs exQ exJ exQ_start exRun exC_inj
+    (by unfold NoReuse; decide +kernel) (by unfold SideOK; decide +kernel) (by rfl) (by decide)
+    (by decide +kernel) 0 true (by decide +kernel)
+
+/-- the request start of the kept trial is what the extractor's float expression yields (identity
+`fl`, fs = 97656.25 Hz, queue start 2 samples, 1 sample pre-stimulus) -/
+example : round (extractorArg (fun x => x) (2 / 97656.25) 97656.25 (1 / 97656.25) 9) =
+    (reqOf exC ⟨2, 0, 9, 3, 3, 2⟩).s :=
+  reqOf_start_roundtrip (fl := fun x => x) (by intro x; simp) (2 / 97656.25) 97656.25 (1 / 97656.25) exC
+    ⟨2, 0, 9, 3, 3, 2⟩ 9 rfl (by norm_num) (by norm_num [exC]) (by norm_num [exC]) (by norm_num [exC])
 
 /-- a history without pause: generate 13 in two requests, acquire in three calls with delayed
 notifications; the second trial (queue sample 5) is recovered as waveform then silence -/
